@@ -404,19 +404,6 @@ pub fn k_c15_from_6_playback() {
 }
 
 #[kani::proof]
-#[kani::unwind(8)]
-pub fn k_c15_count_6() {
-    crate::ob::c15::count_6(&mut KaniSrc);
-}
-
-#[kani::proof]
-#[kani::unwind(8)]
-pub fn k_c15_count_6_playback() {
-    unsafe { crate::src::REACH_OFF = true; }
-    crate::ob::c15::count_6(&mut KaniSrc);
-}
-
-#[kani::proof]
 #[kani::unwind(9)]
 pub fn k_c15_from_7() {
     crate::ob::c15::from_7(&mut KaniSrc);
@@ -427,19 +414,6 @@ pub fn k_c15_from_7() {
 pub fn k_c15_from_7_playback() {
     unsafe { crate::src::REACH_OFF = true; }
     crate::ob::c15::from_7(&mut KaniSrc);
-}
-
-#[kani::proof]
-#[kani::unwind(9)]
-pub fn k_c15_count_7() {
-    crate::ob::c15::count_7(&mut KaniSrc);
-}
-
-#[kani::proof]
-#[kani::unwind(9)]
-pub fn k_c15_count_7_playback() {
-    unsafe { crate::src::REACH_OFF = true; }
-    crate::ob::c15::count_7(&mut KaniSrc);
 }
 
 #[kani::proof]
@@ -1177,15 +1151,132 @@ pub fn k_c01_direct_two_pair_playback() {
 
 #[kani::proof]
 #[kani::unwind(15)]
-pub fn k_c01_direct_pair() {
-    crate::ob::c01::direct_pair(&mut KaniSrc);
+pub fn k_c01_direct_pair_01() {
+    crate::ob::c01::direct_pair_01(&mut KaniSrc);
 }
 
 #[kani::proof]
 #[kani::unwind(15)]
-pub fn k_c01_direct_pair_playback() {
+pub fn k_c01_direct_pair_01_playback() {
     unsafe { crate::src::REACH_OFF = true; }
-    crate::ob::c01::direct_pair(&mut KaniSrc);
+    crate::ob::c01::direct_pair_01(&mut KaniSrc);
+}
+
+#[kani::proof]
+#[kani::unwind(15)]
+pub fn k_c01_direct_pair_02() {
+    crate::ob::c01::direct_pair_02(&mut KaniSrc);
+}
+
+#[kani::proof]
+#[kani::unwind(15)]
+pub fn k_c01_direct_pair_02_playback() {
+    unsafe { crate::src::REACH_OFF = true; }
+    crate::ob::c01::direct_pair_02(&mut KaniSrc);
+}
+
+#[kani::proof]
+#[kani::unwind(15)]
+pub fn k_c01_direct_pair_03() {
+    crate::ob::c01::direct_pair_03(&mut KaniSrc);
+}
+
+#[kani::proof]
+#[kani::unwind(15)]
+pub fn k_c01_direct_pair_03_playback() {
+    unsafe { crate::src::REACH_OFF = true; }
+    crate::ob::c01::direct_pair_03(&mut KaniSrc);
+}
+
+#[kani::proof]
+#[kani::unwind(15)]
+pub fn k_c01_direct_pair_04() {
+    crate::ob::c01::direct_pair_04(&mut KaniSrc);
+}
+
+#[kani::proof]
+#[kani::unwind(15)]
+pub fn k_c01_direct_pair_04_playback() {
+    unsafe { crate::src::REACH_OFF = true; }
+    crate::ob::c01::direct_pair_04(&mut KaniSrc);
+}
+
+#[kani::proof]
+#[kani::unwind(15)]
+pub fn k_c01_direct_pair_12() {
+    crate::ob::c01::direct_pair_12(&mut KaniSrc);
+}
+
+#[kani::proof]
+#[kani::unwind(15)]
+pub fn k_c01_direct_pair_12_playback() {
+    unsafe { crate::src::REACH_OFF = true; }
+    crate::ob::c01::direct_pair_12(&mut KaniSrc);
+}
+
+#[kani::proof]
+#[kani::unwind(15)]
+pub fn k_c01_direct_pair_13() {
+    crate::ob::c01::direct_pair_13(&mut KaniSrc);
+}
+
+#[kani::proof]
+#[kani::unwind(15)]
+pub fn k_c01_direct_pair_13_playback() {
+    unsafe { crate::src::REACH_OFF = true; }
+    crate::ob::c01::direct_pair_13(&mut KaniSrc);
+}
+
+#[kani::proof]
+#[kani::unwind(15)]
+pub fn k_c01_direct_pair_14() {
+    crate::ob::c01::direct_pair_14(&mut KaniSrc);
+}
+
+#[kani::proof]
+#[kani::unwind(15)]
+pub fn k_c01_direct_pair_14_playback() {
+    unsafe { crate::src::REACH_OFF = true; }
+    crate::ob::c01::direct_pair_14(&mut KaniSrc);
+}
+
+#[kani::proof]
+#[kani::unwind(15)]
+pub fn k_c01_direct_pair_23() {
+    crate::ob::c01::direct_pair_23(&mut KaniSrc);
+}
+
+#[kani::proof]
+#[kani::unwind(15)]
+pub fn k_c01_direct_pair_23_playback() {
+    unsafe { crate::src::REACH_OFF = true; }
+    crate::ob::c01::direct_pair_23(&mut KaniSrc);
+}
+
+#[kani::proof]
+#[kani::unwind(15)]
+pub fn k_c01_direct_pair_24() {
+    crate::ob::c01::direct_pair_24(&mut KaniSrc);
+}
+
+#[kani::proof]
+#[kani::unwind(15)]
+pub fn k_c01_direct_pair_24_playback() {
+    unsafe { crate::src::REACH_OFF = true; }
+    crate::ob::c01::direct_pair_24(&mut KaniSrc);
+}
+
+#[kani::proof]
+#[kani::unwind(15)]
+pub fn k_c01_direct_pair_34() {
+    crate::ob::c01::direct_pair_34(&mut KaniSrc);
+}
+
+#[kani::proof]
+#[kani::unwind(15)]
+pub fn k_c01_direct_pair_34_playback() {
+    unsafe { crate::src::REACH_OFF = true; }
+    crate::ob::c01::direct_pair_34(&mut KaniSrc);
 }
 
 #[kani::proof]
@@ -1368,19 +1459,6 @@ pub fn k_c08_seven_shift() {
 pub fn k_c08_seven_shift_playback() {
     unsafe { crate::src::REACH_OFF = true; }
     crate::ob::c08::seven_shift(&mut KaniSrc);
-}
-
-#[kani::proof]
-#[kani::unwind(15)]
-pub fn k_c08_five_shift_direct() {
-    crate::ob::c08::five_shift_direct(&mut KaniSrc);
-}
-
-#[kani::proof]
-#[kani::unwind(15)]
-pub fn k_c08_five_shift_direct_playback() {
-    unsafe { crate::src::REACH_OFF = true; }
-    crate::ob::c08::five_shift_direct(&mut KaniSrc);
 }
 
 #[kani::proof]
